@@ -208,6 +208,33 @@ def scenarios():
     return out
 
 
+def concrete_roundtrip_witness(rt, cin, vals, w):
+    """the derived round-trip terms evaluated (IEEE semantics, concrete term evaluator) at the colour B = 1/8, d1 = 1/4, d2 = 1/2 of the scenario: a channel that does not
+    come back (NaN included), or a conversion of a non-finite value to int on the way, is an established failure of the round trip at that colour"""
+    from laneflow import ceval as CE
+    pt = {('sym', 'B'): Fraction(1, 8), ('sym', 'd1'): Fraction(1, 4), ('sym', 'd2'): Fraction(1, 2)}
+    col = []
+    for i in range(3):
+        v = Fraction(0)
+        for m, c in vals[i].t.items():
+            t_ = Fraction(c)
+            for a in m:
+                t_ *= pt[P.atom_key(a)]
+            v += t_
+        col.append(float(v))
+    env = {cin[i]: CE.f2b(w, col[i]) for i in range(3)}
+    for i in range(3):
+        try:
+            got = CE.b2f(w, CE.evaluate(rt[i], env))
+        except CE.NoValue as e:
+            if 'non-finite' in str(e):
+                return 'at c = (%g, %g, %g) channel %s goes through the conversion of a non-finite value to an integer (undefined)' % (col[0], col[1], col[2], 'rgb'[i])
+            return None
+        if got != col[i]:
+            return 'at c = (%g, %g, %g) channel %s comes back as %r' % (col[0], col[1], col[2], 'rgb'[i], got)
+    return None
+
+
 def hsv_cases(tier, CFG):
     cs = []
     for T in ('float', 'double'):
@@ -246,7 +273,12 @@ def hsv_cases(tier, CFG):
                         res.append(R.ob(oid + '.roundtrip', 'hsv_roundtrip', R.REFUTED, 'channel %s comes back as %s instead of %s (B, d1, d2 > 0 free: e.g. B = 1/8, d1 = 1/4, d2 = 1/2)' % ('rgb'[bad[0]], P.show_poly(P.reduce_inv(bad[1]), limit=6), P.show_poly(vals[bad[0]])),
                                         where=R.where_of(ctx.fn(krt), rt[bad[0]]), kernel=krt.source()))
                 except Undetermined as e:
-                    res.append(R.ob(oid + '.roundtrip', 'hsv_roundtrip', R.UNDECIDED, 'a comparison could not be decided: %s' % e, kernel=krt.source()))
+                    wit = concrete_roundtrip_witness(rt, cin, vals, w) if 'division by zero' in str(e) else None
+                    if wit:
+                        res.append(R.ob(oid + '.roundtrip', 'hsv_roundtrip', R.REFUTED, 'the round trip divides by zero on the evaluated path for every colour of this case; ' + wit,
+                                        where=R.where_of(ctx.fn(krt), rt[0]), kernel=krt.source()))
+                    else:
+                        res.append(R.ob(oid + '.roundtrip', 'hsv_roundtrip', R.UNDECIDED, 'a comparison could not be decided: %s' % e, kernel=krt.source()))
                 except (P.NonFinite, P.TooBig, P.NeedAtom) as e:
                     res.append(R.ob(oid + '.roundtrip', 'hsv_roundtrip', R.UNDECIDED, 'no normal form: %s' % type(e).__name__, kernel=krt.source()))
                 # ---- ranges of hsvColor
